@@ -200,17 +200,17 @@ func goKinds(n NodeCfg) []string {
 	case n.Retry && n.Fb:
 		return []string{"structfb", "plainretryfb", "structovfb"}
 	case n.Retry && !n.Fb:
-		return []string{"struct", "plainretry", "structov", "structzero"}
+		return []string{"struct", "plainretry", "structov", "structzero", "structsh"}
 	case !n.Retry && n.Fb:
 		return []string{"plainfb"}
 	default:
-		return []string{"plain", "zerosize", "zerosize", "valnode"}
+		return []string{"plain", "zerosize", "zerosize", "valnode", "zeroval"}
 	}
 }
 
 // actions: integer tokens <-> flyt.Action
 var actNames = map[int]flyt.Action{0: "", 1: flyt.DefaultAction, 2: "a", 3: "ab", 4: "b", 5: "abc", 6: "A", 7: " ", 8: "\n\t",
-	9: "error", 10: "retry", 11: "fail", 99: "exit"} // (names that sound like outcomes are names like any other)
+	9: "error", 10: "retry", 11: "fail", 12: "100%", 13: "a/b:c.d", 14: "%s%d%w", 99: "exit"} // (names that sound like outcomes are names like any other)
 
 func actName(a int) flyt.Action {
 	if s, ok := actNames[a]; ok {
@@ -349,30 +349,32 @@ func (c *manualDeadlineCtx) expire() {
 // ---------------------------------------------------------------------------
 
 type scnRun struct {
-	cfg      EngineCfg
-	reg      *Registry
-	script   Script
-	events   []Event
-	store    *flyt.SharedStore
-	tok      int
-	run      int
-	visits   map[int]int // per run: node -> visits so far
-	att      map[int]int // node -> attempts in current visit
-	cancel   func()
-	ctx      context.Context // the context of the current run
-	seenCtx  []context.Context
-	nodes    map[int]flyt.Node
-	nCb      int
-	maxCb    int
-	over     bool
-	mu       sync.Mutex
-	flowRun  bool      // call the convenience method (*Flow).Run instead of flyt.Run
-	nest     *nestSpec // a run of the same node object is nested into this exec callback (re-entrancy differential)
-	nestDone bool
-	nestBad  string
-	pending  []ConnOp   // Connect calls of this run that are still to be made from inside post callbacks
-	visitLog bool       // append node ids to a list in the store (C10 differential)
-	compact  *longFacts // a very long run: callback events are counted and checked as they come instead of being kept
+	cfg        EngineCfg
+	reg        *Registry
+	script     Script
+	events     []Event
+	store      *flyt.SharedStore
+	tok        int
+	run        int
+	visits     map[int]int // per run: node -> visits so far
+	att        map[int]int // node -> attempts in current visit
+	cancel     func()
+	ctx        context.Context // the context of the current run
+	seenCtx    []context.Context
+	nodes      map[int]flyt.Node
+	nCb        int
+	maxCb      int
+	over       bool
+	mu         sync.Mutex
+	flowRun    bool      // call the convenience method (*Flow).Run instead of flyt.Run
+	nest       *nestSpec // a run of the same node object is nested into this exec callback (re-entrancy differential)
+	nestDone   bool
+	nestBad    string
+	nestPosts  int                       // posts of the nested run so far
+	sharedBase map[[2]int]*flyt.BaseNode // one BaseNode object per settings, shared by the nodes of kind structsh
+	pending    []ConnOp                  // Connect calls of this run that are still to be made from inside post callbacks
+	visitLog   bool                      // append node ids to a list in the store (C10 differential)
+	compact    *longFacts                // a very long run: callback events are counted and checked as they come instead of being kept
 }
 
 // longFacts: what is kept of a run with tens of thousands of rounds of the same one-node body
@@ -535,6 +537,28 @@ func (s *scnRun) runNested(ctx context.Context, id int) {
 	if s.store.Has("inner") {
 		s.nestedBad("the inner flow wrote to the outer run's store")
 	}
+	// ... and the scenario's own top-level flow object once more, on a scratch store, while its outer run is still in
+	// progress (a recursive sub-problem): the store of a run belongs to the run, not to the flow object
+	if top, isFlow := s.nodes[s.cfg.Top].(*flyt.Flow); isFlow && s.nestTopOK() {
+		s.nestPosts = 0
+		if _, err := flyt.Run(context.WithValue(ctx, nestedKey{}, id), top, flyt.NewSharedStore()); err != nil {
+			s.nestedBad("the nested run of the top-level flow failed: %v", err)
+		}
+	}
+}
+
+// nestTopOK: the top-level flow can be run once more from inside one of its own callbacks (its leaves then answer as
+// nested leaves do; batch steps and flows that are being re-wired are left out)
+func (s *scnRun) nestTopOK() bool {
+	if s.cfg.Dyn || s.cfg.Nilstart || s.cfg.zeroBudget() {
+		return false
+	}
+	for _, n := range s.cfg.Nodes {
+		if n.Kind == "bleaf" {
+			return false
+		}
+	}
+	return true
 }
 
 // a node of the flow that is run from inside a callback
@@ -736,6 +760,10 @@ func (c *leafCore) post(ctx context.Context, shared *flyt.SharedStore, p, x Obs)
 		if p.Tok != nestPrepTok || x.Tok != nestExecTok {
 			s.nestedBad("the nested post received prep %d / exec %d instead of its own values", p.Tok, x.Tok)
 		}
+		s.nestPosts++
+		if s.nestPosts > 30 {
+			return actName(99), nil // a nested run of a whole flow follows default edges only: leave a cycle of them
+		}
 		return flyt.DefaultAction, nil
 	}
 	cok := s.ctxAlive(ctx)
@@ -900,6 +928,46 @@ func (*zs7) Prep(ctx context.Context, s *flyt.SharedStore) (any, error) { return
 func (*zs7) Exec(ctx context.Context, p any) (any, error)               { return zsExec(ctx, 7, p) }
 func (*zs7) Post(ctx context.Context, s *flyt.SharedStore, p, x any) (flyt.Action, error) {
 	return zsPost(ctx, 7, s, p, x)
+}
+
+// the same by value: stateless nodes whose value is the zero value of their type
+type zv0 struct{}
+type zv1 struct{}
+type zv2 struct{}
+type zv3 struct{}
+
+func (zv0) Prep(ctx context.Context, s *flyt.SharedStore) (any, error) { return zsPrep(ctx, 0, s) }
+func (zv0) Exec(ctx context.Context, p any) (any, error)               { return zsExec(ctx, 0, p) }
+func (zv0) Post(ctx context.Context, s *flyt.SharedStore, p, x any) (flyt.Action, error) {
+	return zsPost(ctx, 0, s, p, x)
+}
+func (zv1) Prep(ctx context.Context, s *flyt.SharedStore) (any, error) { return zsPrep(ctx, 1, s) }
+func (zv1) Exec(ctx context.Context, p any) (any, error)               { return zsExec(ctx, 1, p) }
+func (zv1) Post(ctx context.Context, s *flyt.SharedStore, p, x any) (flyt.Action, error) {
+	return zsPost(ctx, 1, s, p, x)
+}
+func (zv2) Prep(ctx context.Context, s *flyt.SharedStore) (any, error) { return zsPrep(ctx, 2, s) }
+func (zv2) Exec(ctx context.Context, p any) (any, error)               { return zsExec(ctx, 2, p) }
+func (zv2) Post(ctx context.Context, s *flyt.SharedStore, p, x any) (flyt.Action, error) {
+	return zsPost(ctx, 2, s, p, x)
+}
+func (zv3) Prep(ctx context.Context, s *flyt.SharedStore) (any, error) { return zsPrep(ctx, 3, s) }
+func (zv3) Exec(ctx context.Context, p any) (any, error)               { return zsExec(ctx, 3, p) }
+func (zv3) Post(ctx context.Context, s *flyt.SharedStore, p, x any) (flyt.Action, error) {
+	return zsPost(ctx, 3, s, p, x)
+}
+
+func newZeroVal(k int, c *leafCore) flyt.Node {
+	zsCores[k] = c
+	switch k {
+	case 0:
+		return zv0{}
+	case 1:
+		return zv1{}
+	case 2:
+		return zv2{}
+	}
+	return zv3{}
 }
 
 func newZeroSize(k int, c *leafCore) flyt.Node {
@@ -1067,6 +1135,19 @@ func (s *scnRun) buildLeaf(id int) flyt.Node {
 		return &plainNode{c: c}
 	case "zerosize":
 		return newZeroSize(id-1, c)
+	case "zeroval":
+		return newZeroVal(id-1, c)
+	case "structsh":
+		// several nodes built on ONE BaseNode object (the nodes with the same settings share it): a BaseNode is
+		// configuration, the node is the value that embeds it
+		key := [2]int{nc.N, nc.W}
+		if s.sharedBase == nil {
+			s.sharedBase = map[[2]int]*flyt.BaseNode{}
+		}
+		if s.sharedBase[key] == nil {
+			s.sharedBase[key] = flyt.NewBaseNode(flyt.WithMaxRetries(nc.N), flyt.WithWait(wait))
+		}
+		return &structNode{BaseNode: s.sharedBase[key], c: c}
 	case "valnode":
 		return valNode{c: c}
 	case "plainfb":
@@ -1157,6 +1238,9 @@ func assignKinds(c *EngineCfg) {
 		c.Nodes[i].Gk = ks[rand.New(rand.NewSource(int64(c.Variant)*7919+int64(i)*104729)).Intn(len(ks))]
 		if c.Nodes[i].Gk == "zerosize" && i >= 8 {
 			c.Nodes[i].Gk = "plain" // only eight distinct zero-size types exist
+		}
+		if c.Nodes[i].Gk == "zeroval" && i >= 4 {
+			c.Nodes[i].Gk = "valnode" // ... and four that are used by value
 		}
 	}
 }
